@@ -31,7 +31,11 @@
 extern "C" { void pr_step(unsigned s); unsigned char pr_draw(void); unsigned char pr_below(unsigned char n); void pr_rec(unsigned e); }
 struct Pay { unsigned short v; };
 namespace cfg {
+#if USE_PLANS
+using C0 = ffsm2::Config::SubstitutionLimitN<2>::TaskCapacityN<1>;
+#else
 using C0 = ffsm2::Config::SubstitutionLimitN<2>;
+#endif
 #if MANUAL
 using C1 = C0::ManualActivation;
 #else
@@ -115,7 +119,7 @@ extern "C" void VCAT(VERIF_PREFIX, scenario)(void) {
     else if (op == 7) { m.replayTransition(pr_below(NST)); }
 #endif
 #if USE_PLANS
-    else if (op == 5 && !USE_SERIAL) { m.plan().change(pr_below(NST), pr_below(NST)); }
+    else if (op == 5 && !USE_SERIAL) { bool ok = m.plan().change(pr_below(NST), pr_below(NST)); pr_rec(ok ? 0xF1 : 0xF0); }
     else if (op == 6 && !USE_SERIAL) { m.succeed(pr_below(NST)); }
 #endif
     observe(m);
